@@ -253,7 +253,20 @@ func execC09(e *Env, p *Plan) error {
 				if len(U.Rows) != len(O.Rows) || !sameMultiset(mu, mo) {
 					return &Violation{"order-changes-rows", fmt.Sprintf("%q returns %d rows, with ORDER BY %v it returns %d rows or different rows", op.S, len(U.Rows), op.Strs, len(O.Rows))}
 				}
-				// 2. sortedness (NULL placement is not fixed: either end)
+				// 2. sortedness (NULL placement is not fixed: either end). A NaN
+				// among the values of a key field leaves the order undefined for
+				// the whole result (no comparison with NaN is true, so a sort has
+				// no total order to establish): such results are skipped
+				for _, k := range keys {
+					if fi := O.Field(k.Field); fi >= 0 {
+						for ri := range O.Rows {
+							if v := O.Rows[ri].Vals[fi]; v != v {
+								e.Count("skipped.nan-in-order-key")
+								goto next
+							}
+						}
+					}
+				}
 				okAny := false
 				var firstBad string
 				for _, nilFirst := range []bool{true, false} {
